@@ -156,6 +156,31 @@ impl<'a> Read for ZipFileReader<'a> {
 }
 
 impl<'a> ZipFileReader<'a> {
+    /// Called when a decompressor has reported the end of its stream. A decompressor stops asking
+    /// for input once its own stream is complete, but the authentication code of an AES entry is
+    /// only checked when the last byte of ciphertext has been read: what is left of the ciphertext
+    /// is read here, so that end-of-file is never reported for an entry that was not authenticated.
+    fn authenticate_rest(&mut self) -> io::Result<()> {
+        let crypto_reader = match self {
+            ZipFileReader::NoReader | ZipFileReader::Raw(_) | ZipFileReader::Stored(_) => return Ok(()),
+            #[cfg(any(
+                feature = "deflate",
+                feature = "deflate-miniz",
+                feature = "deflate-zlib"
+            ))]
+            ZipFileReader::Deflated(r) => r.get_mut().get_mut(),
+            #[cfg(feature = "bzip2")]
+            ZipFileReader::Bzip2(r) => r.get_mut().get_mut(),
+            #[cfg(feature = "zstd")]
+            ZipFileReader::Zstd(r) => r.get_mut().get_mut().get_mut(),
+        };
+        match crypto_reader {
+            #[cfg(feature = "aes-crypto")]
+            CryptoReader::Aes { reader, .. } => io::copy(reader, &mut io::sink()).map(|_| ()),
+            _ => Ok(()),
+        }
+    }
+
     /// Consumes this decoder, returning the underlying reader.
     pub fn into_inner(self) -> io::Take<&'a mut dyn Read> {
         match self {
@@ -1012,7 +1037,12 @@ impl<'a> Read for ZipFile<'a> {
         if buf.is_empty() {
             return Ok(0);
         }
-        self.get_reader().read(buf)
+        let reader = self.get_reader();
+        let count = reader.read(buf)?;
+        if count == 0 {
+            reader.authenticate_rest()?;
+        }
+        Ok(count)
     }
 }
 
